@@ -312,4 +312,27 @@ def jsrunOpts (tpc gpn : Nat) (omp : Bool) (rs : List RSet) : Option JsrunOpts :
 /-- `--smpiargs`: only for CUDA tasks; `true` = "-gpu" (MPI), `false` = "off" -/
 def jsrunSmpi (cuda : Bool) (ranks : Nat) : Option Bool := if cuda then some (decide (ranks > 1)) else none
 
+/-! ### the registry of launch-method inspections -/
+
+/-- a launch method: its family (MPIRUN, MPIEXEC, JSRUN ...) and its flavour within the family (plain, _MPT, _DPLACE ...);
+    the flags it works with are derived from its name when it inspects the platform -/
+structure LMName where
+  family  : Nat
+  flavour : Nat
+deriving DecidableEq, Repr
+
+/-- the registry key of a launch method: its own name (`perName`, read from the source), or - the alternative shown for
+    contrast - one key for the whole family -/
+def lmKey (perName : Bool) (n : LMName) : LMName := if perName then n else { n with flavour := 0 }
+
+/-- `LaunchMethod.__init__`: look the inspection result up under the key; when there is none, inspect (the result carries
+    the flags of THIS name) and store it.  Returns the registry and the info the new instance initialises from -/
+def lmCreate (perName : Bool) (reg : List (LMName × LMName)) (n : LMName) : List (LMName × LMName) × LMName :=
+  match reg.find? (fun e => e.1 = lmKey perName n) with
+  | some e => (reg, e.2)
+  | none   => (reg ++ [(lmKey perName n, n)], n)
+
+def lmCreateAll (perName : Bool) (reg : List (LMName × LMName)) (ns : List LMName) : List (LMName × LMName) :=
+  ns.foldl (fun r n => (lmCreate perName r n).1) reg
+
 end RPVerif.Launch
